@@ -837,6 +837,9 @@ func (b *bmc) run(res *L2Result) {
 		record("reach", l, r, s)
 		if r == ResSat {
 			res.Reach[l]++
+			if len(res.Witnesses) < 2 && (l == "quiescence" || len(labels) < 3 || l == labels[len(labels)-1]) {
+				res.Witnesses = append(res.Witnesses, "config "+b.cfg.Key+", witness for \""+l+"\":\n"+strings.Join(b.trace(), "\n"))
+			}
 		}
 		if r == ResUnknown {
 			panic(engineErr("BMC: solver unknown on reachability of %q", l))
